@@ -39,7 +39,67 @@ func concretise(r *run, o *fovc.Obligation, model string) *replayResult {
 }
 
 var replayers = map[string]func(*run, *fovc.Obligation, string) *replayResult{
-	"frt": replayFrt,
+	"frt":  replayFrt,
+	"main": replayFcScanner,
+}
+
+// replayFcScanner: hand-written scanners of fc/wrapper.go.  The byte string and the position are read
+// from a small-model query (buffer length bounded) with get-value.
+func replayFcScanner(r *run, o *fovc.Obligation, model string) *replayResult {
+	fn := strings.TrimPrefix(o.Func, "main.")
+	known := map[string]bool{"scanSpaceToken": true, "scanIdentifierToken": true, "scanIntImmToken": true, "scanStringLiteralToken": true, "scanRawStringLiteralToken": true,
+		"scanTokenAt": true, "nextToken": true, "searchForward": true, "isStringAt": true, "reinterpretEscape": true, "PosToFilePosInfo": true, "ParseSInterP": true, "newTkz": true, "tkzNext": true}
+	if !known[fn] {
+		return nil
+	}
+	bufName := "p_buf"
+	posName := "p_pos"
+	switch fn {
+	case "searchForward":
+		posName = "p_start"
+	case "isStringAt":
+		posName = "p_at"
+	case "PosToFilePosInfo":
+		posName = "p_posAt"
+	case "nextToken":
+		posName = "(+ (main_Token_begin p_prev) (main_Token_len p_prev))"
+	case "tkzNext":
+		bufName = "(main_Tokenizer_buf p_tkz)"
+		posName = "0"
+	case "newTkz", "reinterpretEscape", "ParseSInterP":
+		posName = "0"
+	}
+	have := "0"
+	bufHex := ""
+	pos := 0
+	src := "no model (solver answered " + o.Result + "): witness search only"
+	if o.Result == "sat" {
+		terms := []string{"(b_len " + bufName + ")", posName}
+		for k := 0; k < 8; k++ {
+			terms = append(terms, fmt.Sprintf("(select (b_arr %s) %d)", bufName, k))
+		}
+		vals := fovc.GetValues(o, []string{fmt.Sprintf("(assert (<= (b_len %s) 8))", bufName)}, terms, 10)
+		if vals != nil {
+			n := smtInt(vals[terms[0]])
+			pos = smtInt(vals[terms[1]])
+			if n >= 0 && n <= 8 {
+				var bs []byte
+				for k := 0; k < n; k++ {
+					bs = append(bs, byte(smtInt(vals[terms[2+k]])&255))
+				}
+				bufHex = fmt.Sprintf("%x", bs)
+				have = "1"
+				src = fmt.Sprintf("small-model query (same VC, buffer length <= 8): buf=%q pos=%d", string(bs), pos)
+			}
+		}
+	}
+	out, _ := runOverlayTest(filepath.Join(repoDir, "fc"), filepath.Join(verifDir, "replay/fc_replay_test.go"), "TestVerifReplay",
+		[]string{"VERIF_REPLAY_FUNC=" + fn, "VERIF_REPLAY_BUF=" + bufHex, fmt.Sprintf("VERIF_REPLAY_POS=%d", pos), "VERIF_REPLAY_HAVEMODEL=" + have}, 120*time.Second)
+	txt, rep := filterReplayLines(out)
+	if txt == "" {
+		txt = out
+	}
+	return &replayResult{Text: "input taken from: " + src + "\ncommand: (cd /repo/fc && VERIF_REPLAY_FUNC=" + fn + " VERIF_REPLAY_BUF=" + bufHex + " VERIF_REPLAY_POS=" + fmt.Sprint(pos) + " VERIF_REPLAY_HAVEMODEL=" + have + " go test -overlay <zz_verif_replay_test.go => /verif/replay/fc_replay_test.go> -vet=off -run TestVerifReplay -v .)\n" + txt, Reproduced: rep}
 }
 
 var reKind = regexp.MustCompile(`\(define-fun reflect_kind \(\(x!0 Reflect_Value\)\) Int\s+(\(- \d+\)|\d+)\)`)
